@@ -4,6 +4,7 @@
 
 mod describe;
 mod drivers;
+mod gen;
 mod outcome;
 
 use rand::rngs::StdRng;
@@ -16,9 +17,30 @@ pub struct Ctx {
     pub watchdog_ms: u64,
     pub sink: outcome::Sink,
     pub args: Vec<String>,
+    pub seq: u64,
+    pub skip: u64,
 }
 
 impl Ctx {
+    /// Record one guarded call.  Calls are numbered; after a hang the process
+    /// records the event, exits with status 3 and is restarted by the runner
+    /// with `--skip <seq>` (generation is deterministic in the seed), so an
+    /// abandoned, possibly allocating, thread never outlives its event.
+    pub fn call(&mut self, op: &str, inp: serde_json::Value, f: fn(&serde_json::Value) -> serde_json::Value) {
+        self.seq += 1;
+        if self.seq <= self.skip {
+            return;
+        }
+        let out = outcome::guarded(&inp, self.watchdog_ms, f);
+        let hang = out.get("hang").is_some();
+        self.sink.event(op, inp, out);
+        if hang {
+            self.sink.flush();
+            println!("HARNESS-HANG seq={} events={}", self.seq, self.sink.n);
+            std::process::exit(3);
+        }
+    }
+
     pub fn arg(&self, name: &str) -> Option<String> {
         self.args
             .iter()
@@ -51,9 +73,16 @@ fn main() {
         watchdog_ms,
         sink: outcome::Sink::create(&out),
         args: args.clone(),
+        seq: 0,
+        skip: get("--skip").and_then(|s| s.parse().ok()).unwrap_or(0),
     };
     match driver.as_str() {
         "supply" => drivers::supply::run(&mut ctx),
+        "eta" => drivers::arrival::run_eta(&mut ctx),
+        "steps" => drivers::arrival::run_steps(&mut ctx),
+        "cost" => drivers::cost::run_cost(&mut ctx),
+        "cost_trace" => drivers::cost::run_cost_trace(&mut ctx),
+        "demand" => drivers::cost::run_demand(&mut ctx),
         d => {
             eprintln!("unknown driver {}", d);
             std::process::exit(2);
